@@ -636,6 +636,39 @@ def unpicklable_depth(ctx, i):
     ctx.case({"unserialisable-values": True}, True)
 
 
+def node_kind_in_identity(ctx, i):
+    """ONE function behind a cached FunctionNode and behind a cached InterruptNode with the same output name, run on one
+    cache in either order: for the function node the value None is a result, for the interrupt it means "ask the
+    human" - the interrupt pauses exactly as without a cache, and the function node completes."""
+    import asyncio
+
+    from hypergraph import AsyncRunner, FunctionNode, Graph, InterruptNode
+
+    rng = ctx.rng
+
+    def ask(draft):
+        return None
+
+    gf = Graph([FunctionNode(ask, name="ask", output_name="decision", cache=True)], name="kf")
+    gi = Graph([InterruptNode(ask, name="ask", output_name="decision", cache=True)], name="ki")
+    backend, tmp = _with_backend(rng)
+    order = [("fn", gf), ("int", gi), ("fn", gf), ("int", gi)] if rng.random() < 0.5 else [("int", gi), ("fn", gf), ("int", gi), ("fn", gf)]
+    cached, plain = AsyncRunner(cache=backend), AsyncRunner()
+    case = {"program": "one function as cached FunctionNode and as cached InterruptNode", "order": [o[0] for o in order], "backend": type(backend).__name__}
+    try:
+        for step, (kind, g) in enumerate(order):
+            rc = asyncio.run(cached.run(g, {"draft": "run:draft"}))
+            ru = asyncio.run(plain.run(g, {"draft": "run:draft"}))
+            ctx.obs["cached_runs_compared"] += 1
+            ctx.obs["node_kind_identity_runs"] += 1
+            if (rc.status.value, rc.values) != (ru.status.value, ru.values):
+                ctx.violation("C09:cached-differs-from-uncached:node-kind", f"run {step} ({kind} node): cached {rc.status.value} {rc.values} vs uncached {ru.status.value} {ru.values}: the entry of the other node kind was served", {**case, "step": step})
+                break
+    finally:
+        _drop_backend(backend, tmp)
+    ctx.case({"node-kind-identity": [o[0] for o in order][:2], "b": type(backend).__name__}, True)
+
+
 def lru_recency(ctx, i):
     """Size-limited in-memory backend, directed history: with room for m entries, an entry that was just READ is the
     most recently used one, so the next insertion evicts some other entry and the read one is still served (documented
@@ -926,6 +959,8 @@ def run(ctx):
             derive_after_cached_run(ctx, i)
         elif i % 50 == 17:
             unpicklable_depth(ctx, i)
+        elif i % 25 == 13:
+            node_kind_in_identity(ctx, i)
         elif i % 20 == 12:
             permuted_wiring_identity(ctx, i)
         else:
